@@ -147,7 +147,7 @@ void drv_alias(int tier, unsigned long seed, const char *extra) {
 }
 
 /* corners_all: EVERY mpz function of the table on corner-alphabet operands (limbs from {0, 1, 2^63, 2^64-1}, 1..3 limbs, both signs).  Each mpz input position
-   in turn runs through all 84 x 2 operands while the other inputs hold a seeded corner operand (functions with one mpz input: the full enumeration); scalars
+   in turn runs through all 63 x 2 operands (and zero) while the other inputs hold a seeded corner operand (functions with one mpz input: the full enumeration); scalars
    from the boundary tables; destinations distinct and exactly allocated.  This carries the "corner contents" idea of corners_z (15 two-operand functions, all
    pairs) to the whole API: single-limb shortcuts that look only at the low or the high limb, carries through all-ones limbs, zero low limbs. */
 static const mp_limb_t CAL[4] = {0, 1, (mp_limb_t)1 << 63, ~(mp_limb_t)0};
@@ -167,18 +167,18 @@ void drv_corners_all(int tier, unsigned long seed, const char *extra) {
     for (i = 0; i < f->nargs; i++) if (is_z(f->kinds[i]) && is_in(f->kinds[i])) zin[nin++] = i;
     if (nin == 0) continue;
     for (pi = 0; pi < nin; pi++) { long k0;
-      for (k0 = 0; k0 < 84; k0 += 12) { long k;
+      for (k0 = 0; k0 < 64; k0 += 12) { long k;
         x++; if (!MINE(sh, x)) continue;
         if (sh.pure && (k0 || pi)) continue;
         rec_reset("corners_all", x, seed);
         for (i = 0; i < 8; i++) callf("mpz_init", i);
-        for (k = k0; k < k0 + 12 && k < 84; k++) { int neg;
+        for (k = k0; k < k0 + 12 && k < 64; k++) { int neg;
           for (neg = 0; neg < 2; neg++) { arg_t a[8]; int var[8], nv = 0;
             if (!tier && nin > 1 && neg != (int)((k + pi) & 1)) continue;           /* quick: alternate signs for multi-input functions */
             memset(a, 0, sizeof a);
             for (i = 0; i < f->nargs; i++) { a[i].kind = f->kinds[i]; var[i] = 0;
               if (is_z(f->kinds[i])) { var[i] = nv++;      /* all distinct */
-                if (is_in(f->kinds[i])) { if (i == zin[pi]) set_corner(var[i], k, neg); else set_corner(var[i], (long)rnd_below(84), (int)rnd_below(2)); }
+                if (is_in(f->kinds[i])) { if (i == zin[pi]) set_corner(var[i], k, neg); else set_corner(var[i], (long)rnd_below(64), (int)rnd_below(2)); }
                 else callf("drv_rndz", var[i], (int)rnd_below(3), 0, (int)rnd_below(2)); }
               else switch (f->kinds[i]) { case K_U: a[i].u = gen_u(f->name, i, 0); break; case K_S: a[i].s = SIS[rnd_below(11)]; break;
                 case K_B: a[i].u = gen_b(f->name); break; case K_I: a[i].s = has(f->name, "sizeinbase") ? 2 + (int)rnd_below(61) : (int)rnd_below(30); break;
@@ -380,6 +380,65 @@ void drv_hist_qf(int tier, unsigned long seed, const char *extra) {
     for (i = 0; i < 8; i++) callf("mpz_clear", i);
     for (i = 0; i < 4; i++) { callf("mpq_clear", i); callf("mpf_clear", i); }
     rec_quiesce();
+  }
+}
+
+/* corners_qf: EVERY mpq and mpf function of the table on corner-alphabet operands (the counterpart of corners_all).  Each rational / float input position in turn
+   runs through the corner operands (limbs from {0, 1, 2^63, 2^64-1}, 1..3 limbs, both signs; floats: x exponents -1..3, rationals: numerator over a rotating corner
+   denominator, canonicalised by a recorded call) while the other inputs hold a seeded corner operand; scalars CYCLE through the boundary tables; destinations hold
+   stale content, two precisions (64 and 128 bits; operands keep up to 3 limbs, so they may be longer than the destination holds).  Single-limb shortcuts, carries out
+   of all-ones limbs, low zero limbs and exact cancellation in every function, not only in the two-operand groups of corners_q / corners_f. */
+static void setq_corner(int v, long kn, long kd, int neg) { mp_limb_t b[4]; int n; char *hn, *hd;
+  n = corner_op(kn % 64, b); hn = hex_of_limbs(b, n, neg); n = corner_op(kd % 63, b);      /* 63 corner operands; index 63 = zero (numerators only) */ hd = hex_of_limbs(b, n, 0);
+  callf("drv_setq", v, hn, hd); free(hn); free(hd); callf("mpq_canonicalize", v); }
+static void setf_corner(int v, long k, int neg, long e) { mp_limb_t b[4]; int n; char *h;
+  k %= 64; n = corner_op(k, b); if (n == 0) { callf("drv_setf", v, "0", (int64_t)0); return; }
+  if (n > (int)PREC(Fp[v]) + 1) n = PREC(Fp[v]) + 1;                       /* keep the top limbs that fit (still a corner operand) */
+  { mp_limb_t *q = b + (corner_op(k, b) - n); h = hex_of_limbs(q, n, neg); } callf("drv_setf", v, h, (int64_t)e); free(h); }
+void drv_corners_qf(int tier, unsigned long seed, const char *extra) {
+  shard_t sh = shard_parse(extra); long x = 0; int fi; unsigned long cyc = 0;
+  for (fi = 0; fi < api_count; fi++) {
+    const api_fn *f = &api_table[fi]; int pin[8], nin = 0, i, pi, isF, pd;
+    if (skip_qf(f) || !want(&sh, f->name) || has(f->name, "swap")) continue;
+    isF = !strncmp(f->name, "mpf_", 4);
+    { const char *fam = opt_val(&sh, "fam"); if (fam && ((fam[0] == 'q') == isF)) continue; }      /* fam=q / fam=f: one family only */
+    for (i = 0; i < f->nargs; i++) if ((is_q(f->kinds[i]) || is_f(f->kinds[i])) && is_in(f->kinds[i])) pin[nin++] = i;
+    if (nin == 0) continue;
+    for (pi = 0; pi < nin; pi++) for (pd = 0; pd < (isF ? 2 : 1); pd++) { long k0;
+      for (k0 = 0; k0 < 64; k0 += 6) { long k; int sig = 0;
+        x++; if (!MINE(sh, x)) continue;
+        if (sh.pure && (k0 || pi || pd)) continue;
+        rec_reset("corners_qf", x, seed);
+        for (i = 0; i < 8; i++) callf("mpz_init", i);
+        for (i = 0; i < 4; i++) { callf("mpq_init", i); callf("mpf_init2", i, (uint64_t)(i == 0 ? (pd ? 128 : 64) : (i == 1 ? 128 : 192))); }
+        for (k = k0; k < k0 + 6 && k < 64 && !sig; k++) { int neg, ev;
+          for (neg = 0; neg < 2 && !sig; neg++) for (ev = 0; ev < (is_f(f->kinds[pin[pi]]) ? (tier ? 5 : 3) : (tier ? 6 : 3)) && !sig; ev++) { arg_t a[8]; int var[8], nq = 0, nf = 0;
+            memset(a, 0, sizeof a);
+            for (i = 0; i < f->nargs; i++) { a[i].kind = f->kinds[i]; var[i] = 0;
+              if (is_q(f->kinds[i])) { var[i] = nq++;
+                if (is_in(f->kinds[i])) { if (i == pin[pi]) setq_corner(var[i], k, (k * 5 + ev * 29 + 3) % 63, neg); else setq_corner(var[i], (long)rnd_below(64), (long)rnd_below(64), (int)rnd_below(2)); }
+                else setq_rand(var[i], 0); }
+              else if (is_f(f->kinds[i])) { var[i] = nf++;
+                if (is_in(f->kinds[i])) { if (i == pin[pi]) setf_corner(var[i], k, neg, (long)(tier ? ev - 1 : ev * 2 - 1)); else setf_corner(var[i], (long)rnd_below(64), (int)rnd_below(2), (long)rnd_below(4) - 1); }
+                else setf_rand(var[i], 0); }
+              else switch (f->kinds[i]) {
+                case K_U: a[i].u = UIS[cyc++ % 12];
+                  if ((has(f->name, "div_ui") || (!isF && i == 2 && (has(f->name, "set_ui") || has(f->name, "set_si") || has(f->name, "cmp_ui") || has(f->name, "cmp_si")))) && a[i].u == 0) a[i].u = 3; break;
+                case K_S: a[i].s = SIS[cyc++ % 11]; break;
+                case K_B: { static const int bb[] = {0, 1, 2, 63, 64, 65, 127, 128, 129, 191, 192, 193, 31}; a[i].u = (uint64_t)bb[cyc++ % 13]; if (has(f->name, "mpf_eq") && a[i].u == 0) a[i].u = 64; } break;
+                case K_D: a[i].d = DS[cyc++ % 11]; break;
+                case K_ZI: set_corner(5, (long)(cyc++ * 7 % 64), (int)(cyc & 1)); if (has(f->name, "set_den") && SIZ(Zp[5]) == 0) callf("mpz_set_ui", 5, (uint64_t)2); var[i] = 5; break;
+                case K_ZO: var[i] = 4; break; default: break; } }
+            if (has(f->name, "sqrt") && isF && !has(f->name, "sqrt_ui")) { int u = var[f->nargs - 1]; if (SIZ(Fp[u]) < 0) callf("mpf_abs", u, u); }
+            { ret_t r; int qraw = -1; for (i = 0; i < f->nargs; i++) if (is_obj_kind(f->kinds[i])) { a[i].idx = var[i]; if (is_q(f->kinds[i]) && is_out(f->kinds[i])) qraw = var[i]; }
+              sig = do_call(f, a, &r); if (f->rkind == RT_STR && r.str) rec_free_str(r.str);
+              if (!sig && !isF && qraw >= 0 && (has(f->name, "set_num") || has(f->name, "set_den") || has(f->name, "set_ui") || has(f->name, "set_si") || has(f->name, "set_str"))) callf("mpq_canonicalize", qraw); }
+          } }
+        if (sig) continue;                                   /* arithmetic signal (division by zero): the execution is abandoned */
+        for (i = 0; i < 8; i++) callf("mpz_clear", i);
+        for (i = 0; i < 4; i++) { callf("mpq_clear", i); callf("mpf_clear", i); }
+        rec_quiesce();
+      } }
   }
 }
 
